@@ -9,6 +9,7 @@ import IdpyVerif.Driver.Jar
 import IdpyVerif.Driver.Registration
 import IdpyVerif.Driver.Subject
 import IdpyVerif.Driver.Claims
+import IdpyVerif.Driver.Resolve
 open Idpy
 
 structure DState where
@@ -21,6 +22,7 @@ structure DState where
 def dispatch (st : DState) (fields : List String) : DState × String :=
   match fields with
   | "lv" :: args => (st, (Driver.C14.codec args).getD "bad-op")
+  | "res" :: args => (st, (Driver.Resolve.handle args).getD "bad-op")
   | "claims" :: args => (st, (Driver.Claims.handle args).getD "bad-op")
   | "sub" :: args => (st, (Driver.Subject.handle args).getD "bad-op")
   | "pkce" :: args => (st, (Driver.Pkce.handle args).getD "bad-op")
